@@ -200,9 +200,20 @@ func (c *ContractIterator) Value() []byte {
 // stripDelIterator 从迭代器里剔除删除标注和空版本
 type stripDelIterator struct {
 	ledger.XMIterator
+	// 是否同时剔除空版本(读过但不存在的key在读缓存里以空版本的形式留着)
+	stripEmptyVersion bool
 }
 
+// newStripDelIterator 用于读缓存和底层存储的迭代器: 剔除删除标注和空版本
 func newStripDelIterator(xmiter ledger.XMIterator) ledger.XMIterator {
+	return &stripDelIterator{
+		XMIterator:        xmiter,
+		stripEmptyVersion: true,
+	}
+}
+
+// newStripDelFlagIterator 用于合并了写缓存之后的迭代器: 只剔除删除标注(本次执行新写入的值还没有版本)
+func newStripDelFlagIterator(xmiter ledger.XMIterator) ledger.XMIterator {
 	return &stripDelIterator{
 		XMIterator: xmiter,
 	}
@@ -212,6 +223,9 @@ func (s *stripDelIterator) Next() bool {
 	for s.XMIterator.Next() {
 		v := s.Value()
 		if IsDelFlag(v.PureData.Value) {
+			continue
+		}
+		if s.stripEmptyVersion && IsEmptyVersionedData(v) {
 			continue
 		}
 		return true
